@@ -1828,8 +1828,12 @@ class DistWeibull(DistContinuous):
         """
         Draw a value from the Weibull distribution.
         """
-        return (self._beta * math.pow(-math.log(_next_float_open(self._stream)), 
-                                      1.0 / self._alpha))
+        try:
+            return (self._beta * math.pow(-math.log(_next_float_open(self._stream)), 
+                                          1.0 / self._alpha))
+        except OverflowError:
+            # the value is beyond the largest float (very small alpha)
+            return math.inf
 
     def probability_density(self, x: float) -> float:
         """Returns the probability density value for value x."""
